@@ -130,6 +130,8 @@ func runC02(c *Ctx) {
 		{Callee: "core/04-channel/keeper.Keeper.SetNextSequenceRecv", Allowed: append([]string{"core/04-channel/keeper.Keeper.applyReplayProtection"}, initWriters...), Min: 3},
 		{Callee: "core/04-channel/keeper.Keeper.SetNextSequenceAck", Allowed: append([]string{"core/04-channel/keeper.Keeper.AcknowledgePacket"}, initWriters...), Min: 3},
 	})
+	// genesis import restores each counter from its own exported field
+	c.GenesisImportMap(which, "C02/genesis-import", "core/04-channel.InitGenesis", "param#2", channelGenesisFields)
 	// initial value is the constant 1 at the handshake writers
 	for _, w := range initWriters[1:] {
 		if rr := c.Run(which, w); rr != nil {
